@@ -84,6 +84,87 @@ Proof.
       * intro H. apply Ni. right. exact H.
       * intro H. apply Nj. right. exact H.
 Qed.
+
+(* ------------------------------------------------------------------ distinct nearest bands are the bands chosen
+   [ltb] is a strict order on the distances that occur (irreflexive, transitive - true of < on non-NaN doubles). *)
+Hypothesis ltb_irrefl : forall a, ltb a a = false.
+Hypothesis ltb_trans : forall a b c, ltb a b = true -> ltb b c = true -> ltb a c = true.
+Notation lt_pair := (lt_pair D ltb dm).
+
+Lemma lt_pair_irrefl p : lt_pair p p = false.
+Proof. unfold Match.lt_pair. destruct (dm (fst p) (snd p)); [apply ltb_irrefl|reflexivity]. Qed.
+Lemma lt_pair_trans p q r : lt_pair p q = true -> lt_pair q r = true -> lt_pair p r = true.
+Proof.
+  unfold Match.lt_pair. destruct (dm (fst p) (snd p)), (dm (fst q) (snd q)), (dm (fst r) (snd r)); try discriminate.
+  apply ltb_trans.
+Qed.
+
+(* the candidate the scan returns is minimal: no candidate is strictly nearer *)
+Lemma fold_best_le l acc :
+  let b := fold_left (fun best p => if lt_pair p best then p else best) l acc in b = acc \/ lt_pair b acc = true.
+Proof.
+  revert acc. induction l as [|x l IH]; intros acc; cbn [fold_left]; [left; reflexivity|].
+  destruct (lt_pair x acc) eqn:E.
+  - right. destruct (IH x) as [->|H]; [exact E|exact (lt_pair_trans _ _ _ H E)].
+  - apply IH.
+Qed.
+Lemma argbest_min l acc q : In q (acc :: l) -> lt_pair q (argbest l acc) = false.
+Proof.
+  unfold Match.argbest. revert acc q. induction l as [|x l IH]; intros acc q Hq; cbn [fold_left].
+  - destruct Hq as [<-|[]]. apply lt_pair_irrefl.
+  - destruct (lt_pair x acc) eqn:E.
+    + destruct Hq as [<-|Hq]; [|apply IH; exact Hq].
+      destruct (lt_pair acc (fold_left (fun best p => if lt_pair p best then p else best) l x)) eqn:F; [exfalso|reflexivity].
+      destruct (fold_best_le l x) as [Eb|Hb].
+      * rewrite Eb in F. pose proof (lt_pair_trans _ _ _ F E) as G. rewrite lt_pair_irrefl in G. discriminate.
+      * pose proof (lt_pair_trans _ _ _ (lt_pair_trans _ _ _ F Hb) E) as G. rewrite lt_pair_irrefl in G. discriminate.
+    + destruct Hq as [<-|[<-|Hq]]; [apply IH; left; reflexivity| |apply IH; right; exact Hq].
+      destruct (lt_pair x (fold_left (fun best p => if lt_pair p best then p else best) l acc)) eqn:F; [exfalso|reflexivity].
+      destruct (fold_best_le l acc) as [Eb|Hb].
+      * rewrite Eb in F. congruence.
+      * pose proof (lt_pair_trans _ _ _ F Hb). congruence.
+Qed.
+
+Theorem greedy_nearest (nearest : nat -> nat) fuel rows cols :
+  NoDup rows -> length rows <= fuel ->
+  (forall i, In i rows -> In (nearest i) cols) ->
+  (forall i i', In i rows -> In i' rows -> nearest i = nearest i' -> i = i') ->
+  (forall i, In i rows -> exists d, dm i (nearest i) = Some d /\
+       forall j d', In j cols -> j <> nearest i -> dm i j = Some d' -> ltb d d' = true) ->
+  forall i, In i rows -> In (i, nearest i) (greedy fuel rows cols).
+Proof.
+  revert rows cols. induction fuel as [|f IH]; intros rows cols Hnd Hl Hin Hinj Hnear i Hi.
+  - destruct rows; [destruct Hi|cbn in Hl; lia].
+  - cbn [Match.greedy].
+    destruct (cands rows cols) as [|c cs] eqn:Ec.
+    + exfalso. destruct (Hnear i Hi) as (d & Hd & _).
+      assert (In (i, nearest i) (cands rows cols)).
+      { apply cands_in. cbn [fst snd]. unfold has_d. cbn [fst snd]. rewrite Hd. auto. }
+      rewrite Ec in H. destruct H.
+    + remember (argbest cs c) as p eqn:Ep.
+      assert (Hp : In p (cands rows cols)) by (rewrite Ec, Ep; apply argbest_in).
+      pose proof Hp as Hp'. apply cands_in in Hp'. destruct Hp' as (P1 & P2 & P3).
+      assert (Esnd : snd p = nearest (fst p)).
+      { destruct (Nat.eq_dec (snd p) (nearest (fst p))) as [E|Ne]; [exact E|exfalso].
+        destruct (Hnear (fst p) P1) as (d & Hd & Hlt).
+        unfold has_d in P3. destruct (dm (fst p) (snd p)) as [d'|] eqn:Ed'; [|discriminate].
+        specialize (Hlt (snd p) d' P2 Ne Ed').
+        assert (Hq : In (fst p, nearest (fst p)) (c :: cs)).
+        { rewrite <- Ec. apply cands_in. cbn [fst snd]. unfold has_d. cbn [fst snd]. rewrite Hd. auto. }
+        pose proof (argbest_min cs c _ Hq) as Hmin. rewrite <- Ep in Hmin.
+        unfold Match.lt_pair in Hmin. cbn [fst snd] in Hmin. rewrite Hd, Ed' in Hmin. congruence. }
+      destruct (Nat.eq_dec i (fst p)) as [Ei|Ni].
+      * left. destruct p as [a b]. cbn [fst snd] in *. subst. reflexivity.
+      * right. apply IH.
+        -- unfold remove_nat. apply NoDup_filter. exact Hnd.
+        -- pose proof (remove_nat_len (fst p) rows P1). lia.
+        -- intros k Hk. apply remove_nat_in in Hk. destruct Hk as [Hk Hne]. apply remove_nat_in. split; [apply Hin; exact Hk|].
+           rewrite Esnd. intro E. apply Hne. apply Hinj; assumption.
+        -- intros k k' Hk Hk'. apply remove_nat_in in Hk, Hk'. apply Hinj; tauto.
+        -- intros k Hk. apply remove_nat_in in Hk. destruct Hk as [Hk _]. destruct (Hnear k Hk) as (d & Hd & Hlt).
+           exists d. split; [exact Hd|]. intros j d' Hj. apply remove_nat_in in Hj. apply Hlt. tauto.
+        -- apply remove_nat_in. split; [exact Hi|exact Ni].
+Qed.
 End GreedyProofs.
 
 (* ------------------------------------------------------------------ list helpers *)
@@ -335,6 +416,67 @@ Proof.
   - rewrite seq_length. lia.
   - apply in_seq. lia.
   - apply in_seq. lia.
+Qed.
+
+(* ------------------------------------------------------------------ distinct nearest bands: each source band gets exactly that band
+   (not forced, wavelengths on both sides, a strict order on distances) *)
+Hypothesis ltbD_irrefl : forall a, ltbD a a = false.
+Hypothesis ltbD_trans : forall a b c, ltbD a b = true -> ltbD b c = true -> ltbD a c = true.
+
+Lemma assoc_of_nodup (l : list (nat * nat)) i j : NoDup (map fst l) -> In (i, j) l -> assoc i l = Some j.
+Proof.
+  induction l as [|[a b] l IH]; intros Hn Hin; [destruct Hin|]. cbn [assoc fst snd]. cbn [map fst] in Hn. inversion Hn as [|? ? Ha Hd]; subst.
+  destruct Hin as [E|Hin].
+  - inversion E; subst. rewrite Nat.eqb_refl. reflexivity.
+  - destruct (Nat.eqb a i) eqn:E; [|apply IH; assumption]. apply Nat.eqb_eq in E. subst. exfalso. apply Ha.
+    apply in_map_iff. exists (i, j). split; [reflexivity|exact Hin].
+Qed.
+Lemma somes_all (f : nat -> nat) l : somes (map (fun i => Some (f i)) l) = map f l.
+Proof. induction l as [|x l IH]; [reflexivity|]. cbn [map]. unfold somes in *. cbn [flat_map app]. rewrite IH. reflexivity. Qed.
+Lemma kept_all_some (a : list nat) (f : nat -> nat) (l : list nat) : length a = length l ->
+  map fst (filter is_some (combine a (map (fun i => Some (f i)) l))) = a.
+Proof.
+  revert l. induction a as [|x a IH]; intros [|y l] H; try reflexivity; try discriminate. cbn [map combine filter is_some snd fst].
+  f_equal. apply IH. cbn in H. lia.
+Qed.
+
+Theorem distinct_nearest_gets_nearest (nearest : nat -> nat) :
+  wl_ok = true -> force = false -> n <= m ->
+  (forall i, i < n -> nearest i < m) ->
+  (forall i i', i < n -> i' < n -> nearest i = nearest i' -> i = i') ->
+  (forall i, i < n -> exists d, dm i (nearest i) = Some d /\ overD d = false /\
+       forall j d', j < m -> j <> nearest i -> dm i j = Some d' -> ltbD d d' = true) ->
+  core = inr (sbands, map (fun i => nth (nearest i) rbands 0) (seq 0 n)).
+Proof.
+  intros Hwl Hf Hnm Hrange Hinj Hnear.
+  assert (Hp : pairs = greedy D ltbD dm n (seq 0 n) (seq 0 m)) by (unfold pairs; rewrite Hwl, Hf; reflexivity).
+  assert (Hall : forall i, i < n -> In (i, nearest i) pairs).
+  { intros i Hi. rewrite Hp. apply (greedy_nearest D ltbD dm ltbD_irrefl ltbD_trans nearest).
+    - apply seq_NoDup.
+    - rewrite seq_length. lia.
+    - intros k Hk. apply in_seq in Hk. apply in_seq. specialize (Hrange k). lia.
+    - intros k k' Hk Hk'. apply in_seq in Hk, Hk'. apply Hinj; lia.
+    - intros k Hk. apply in_seq in Hk. destruct (Hnear k ltac:(lia)) as (d & Hd & _ & Hlt). exists d. split; [exact Hd|].
+      intros j d' Hj. apply in_seq in Hj. apply Hlt. lia.
+    - apply in_seq. lia. }
+  assert (Hassoc : forall i, i < n -> assoc i pairs = Some (nearest i)).
+  { intros i Hi. apply assoc_of_nodup; [apply pairs_nodup|apply Hall; exact Hi]. }
+  assert (Hmb : mb1 = map (fun i => Some (nth (nearest i) rbands 0)) (seq 0 n)).
+  { unfold mb1. apply map_ext_in. intros i Hi. apply in_seq in Hi. rewrite Hassoc by lia. reflexivity. }
+  unfold match_core. fold n m. fold pairs. fold mb1. change (fun p : nat * option nat => match snd p with Some _ => true | None => false end) with is_some.
+  rewrite Hf. cbn [negb]. rewrite andb_true_r.
+  destruct (Nat.ltb m n) eqn:Efew; [apply Nat.ltb_lt in Efew; lia|].
+  assert (Hover : existsb (fun p => match dm (fst p) (snd p) with Some d => overD d | None => false end) pairs = false).
+  { apply not_true_is_false. intro H. apply existsb_exists in H. destruct H as (p & Hpin & Hov).
+    destruct (pairs_in p Hpin) as (A & _ & _).
+    assert (E : p = (fst p, nearest (fst p))).
+    { destruct p as [a b]. cbn [fst snd] in *. f_equal.
+      pose proof (assoc_of_nodup pairs a b (proj1 pairs_nodup) Hpin) as E1. rewrite (Hassoc a A) in E1. congruence. }
+    rewrite E in Hov. cbn [fst snd] in Hov. destruct (Hnear (fst p) A) as (d & Hd & Ho & _). rewrite Hd, Ho in Hov. discriminate. }
+  rewrite Hover.
+  assert (Hlen : length (somes mb1) = n) by (rewrite Hmb, somes_all, map_length, seq_length; reflexivity).
+  rewrite Hlen. rewrite Nat.min_l by exact Hnm. rewrite Nat.ltb_irrefl.
+  rewrite Hmb, somes_all, kept_all_some by (rewrite seq_length; reflexivity). reflexivity.
 Qed.
 End MatcherProofs.
 
